@@ -27,6 +27,7 @@ import (
 	"os"
 	"strconv"
 	"sync"
+	"sync/atomic"
 	"testing"
 	"time"
 
@@ -355,6 +356,9 @@ func c04Check(out *vlib.Out, w *c34World, reg *c34Reg, j *c04Job, app []byte, re
 var (
 	c04FailMu sync.Mutex
 	c04Fails  []string
+	// cases that took more than 3 s of real time (a tunnel that stalls instead of relaying): after a
+	// couple of dozen the generator stops, so that the run ends and its findings are written out
+	c04Slow atomic.Int32
 )
 
 func c04Diff(got, want []byte) string {
@@ -387,6 +391,13 @@ func c04RunJob(out *vlib.Out, w *c34World, clients []*c34Reg, j *c04Job) error {
 	app := c04AppData(j.seed, total)
 	var res *c04Result
 	var err error
+	began := time.Now()
+	defer func() {
+		if time.Since(began) > 3*time.Second {
+			c04Slow.Add(1)
+			out.Count("slow-case(>3s)")
+		}
+	}()
 	if j.mode == "pipe" {
 		res, err = c04RunPipe(w, reg, j, app)
 	} else {
@@ -498,6 +509,10 @@ func TestVerifC04(t *testing.T) {
 	}
 	emit := func(j c04Job) {
 		j.seed = r.U64()
+		if c04Slow.Load() >= 24 {
+			out.Count("skipped-after-24-slow-cases")
+			return
+		}
 		jobs <- j
 	}
 	// ---- corpus: the cases of the property text, hand-picked
